@@ -201,7 +201,10 @@ int main(void)
     VASSERTM(parsec_context_wait(&ctx) == PARSEC_SUCCESS, "context_wait succeeded");
     waiting_over = 1;
     check_all_done("epoch 1");
-    for(int k = 0; k < NTP; k++) if(adder[k] != 99) VASSERTM(added[k], "every taskpool designated for this epoch was submitted");
+    /* a taskpool belongs to the second epoch if it is kept back (99) or if its submitter does */
+    int epoch2[3] = {0, 0, 0};
+    for(int j = 1; j < NTP; j++) { int a = adder[j]; epoch2[j] = (a == 99) || (a >= 10 && a < 30 && epoch2[a % 10]); }
+    for(int k = 0; k < NTP; k++) VASSERTM(added[k] == !epoch2[k], "exactly the taskpools designated for this epoch were submitted");
 #if MODE == 2
     /* ---- epoch 2: the taskpools kept back are submitted now; same behaviour expected ---- */
     int any2 = 0;
